@@ -6,5 +6,6 @@ CONSTANTS
   Vias <- ViasGenPair
   MaxInject = 1
   Spoof = TRUE
+  RestoreAtTop = TRUE
 CONSTRAINTS GenPairQuick GenStop
 INVARIANTS EmitPair
